@@ -345,7 +345,7 @@ class WARCRecorder(object):
                 _('Rolling back file {filename} to length {length}.'),
                 filename=self._warc_filename, length=before_offset
             )
-            with open(self._warc_filename, mode='wb') as out_file:
+            with open(self._warc_filename, mode='ab') as out_file:
                 out_file.truncate(before_offset)
 
             raise error
